@@ -254,6 +254,17 @@ def mutate_dump(dmp, how):
         for e in ents.values():
             if e["kind"] == "integer" and e["name"] == "i64":
                 e["name"] = "u64"
+    elif how == "derives":           # patch derives no longer attached
+        for e in ents.values():
+            e["extra_derives"] = []
+    elif how == "native":            # a replaced / converted position keeps a generated-looking type
+        for e in ents.values():
+            if e["kind"] == "native":
+                e["type_name"] += "X"
+    elif how == "impls":
+        for e in ents.values():
+            if e["kind"] == "native":
+                e["impls"] = []
 
 
 HEADER = (tocoq.COQ_HEADER +
@@ -526,6 +537,11 @@ def run_settings(n=120, seed=1, tag="convert_check_s", per_doc=2):
             if st:
                 pairs.append((d, st))
     gens = vlib.run_vh("gen", [{"settings": st, "steps": [{"op": "root", "doc": d}], "code": False} for d, st in pairs])
+    mut = os.environ.get("CONVERT_CHECK_MUTATE")
+    if mut:
+        for g in gens:
+            if g.get("all_ok"):
+                mutate_dump(g["dump"], mut)
     hdr = HEADER.replace("Algo.Convert.", "Algo.Convert Algo.ConvertS.")
     d = os.path.join(vlib.WORK, "cases", tag)
     os.makedirs(d, exist_ok=True)
